@@ -48,21 +48,25 @@ FullTpls == 1..5
 RotTpls  == 4                        \* rotation over T1..T4
 
 \* ---------------------------------------------------------------- cell values, block decoration, schemas
+\* TLC's state queue does not preserve non-ASCII characters (a state written to disk comes back with U+00E9 as
+\* U+FFE9), so inside this module the unicode cell value is the ASCII token UC; the driver decodes it to U+00E9
+\* when it reads the emitted cases (the judge Outline_Trace sees the real character).
+UC == "~e"
 Other(c) == IF c = "a" THEN "b" ELSE "a"
-Vals(c) == << <<>>, <<"x">>, <<"é">>, <<Other(c)>> >>     \* empty, x, unicode, the other column's name as plain text
+Vals(c) == << <<>>, <<"x">>, <<UC>>, <<Other(c)>> >>     \* empty, x, unicode, the other column's name as plain text
 AllCodes == 0..15                    \* code = 4 * (index of a's value) + (index of b's value)
 Codes4   == {5, 7, 13, 15}           \* values from {x, other column's name}
 CellsFor(ord, code) == LET va == Vals("a")[(code \div 4) + 1]  vb == Vals("b")[(code % 4) + 1]
                        IN IF ord = 1 THEN <<va, vb>> ELSE <<vb, va>>
 ColsFor(ord) == IF ord = 1 THEN <<"a", "b">> ELSE <<"b", "a">>
-BlockNames == << <<>>, <<"E1">>, <<"B é a">> >>
+BlockNames == << <<>>, <<"E1">>, <<"B ", UC, " a">> >>
 BlockTags  == << <<>>, << <<"e1">> >>, << <<"e1">>, <<"e.2">> >> >>
 Schemas == << <<"{name}", " -- @", "{row.id}", " ", "{examples.name}">>,        \* behave's default
               <<"{name}">>,
               <<"{name}", " [", "{examples.index}", "/", "{row.index}", "]">>,
               <<"{examples.name}", ":", "{row.id}", " ", "{name}">>,
               <<"{row.index}", ".", "{name}", ".", "{examples.index}">>,
-              <<"R", "{row.id}", " é">> >>
+              <<"R", "{row.id}", " ", UC>> >>
 
 \* ---------------------------------------------------------------- cases: [t, ords, rows]  (rows[b][r] = value code)
 RECURSIVE SumSeq(_)
@@ -102,18 +106,18 @@ SchemaNo(c) == ((Hash(c) \div 2) % Len(Schemas)) + 1
 SchemaOf(c) == Schemas[SchemaNo(c)]
 
 \* history bases: templates 1 and 4, one value code, few rows
-HistCode == 6                          \* a = x, b = é
+HistCode == 6                          \* a = x, b = UC
 IsHistBase(c) == /\ c.t \in {1, 4} /\ NRows(c) <= HistN
                  /\ \A b \in DOMAIN c.rows : \A r \in DOMAIN c.rows[b] : c.rows[b][r] = HistCode
 
 \* ---------------------------------------------------------------- operations offered in a state
-\* The state holds SMALL ops [op, b, v] (integers and ASCII only: TLC's state queue does not preserve non-ASCII
-\* characters); FullOp turns a small op into the op record of Outline.tla relative to the current outline.
+\* small ops [op, b, v] name the choices; FullOp turns one into the op record of Outline.tla relative to the
+\* current outline
 Op(op, b, cells, line, name, dflt) == [op |-> op, b |-> b, cells |-> cells, line |-> line, name |-> name, dflt |-> dflt]
 AccessOp == Op("access", 0, <<>>, 0, "", <<>>)
 NewRowCells(blk, v) == [j \in DOMAIN blk.cols |->
                           IF j = 1 THEN (IF v = 1 THEN <<"y">> ELSE <<"p", " ", "q">>)
-                          ELSE IF j = 2 THEN (IF v = 1 THEN <<>> ELSE <<"é">>) ELSE <<"z">>]
+                          ELSE IF j = 2 THEN (IF v = 1 THEN <<>> ELSE <<UC>>) ELSE <<"z">>]
 ColVariant(n, v) == IF v = 1 THEN << [r \in 1..n |-> <<"C", Dig(r)>>], <<"d">> >>      \* a value for every row
                     ELSE IF v = 2 THEN << <<>>, <<"d">> >>                             \* values=None, default_value
                     ELSE << << <<"K">> >>, <<>> >>                                     \* first row only, "" for the rest
@@ -130,29 +134,27 @@ OpsFor(o) == {Small("access", 0, 0)}
                             v \in (IF Len(o.blocks[bi].rows) = 0 THEN {2} ELSE IF Len(o.blocks[bi].rows) = 1 THEN {1, 2} ELSE {1, 2, 3})} :
                          bi \in {y \in DOMAIN o.blocks : "c" \notin Range(o.blocks[y].cols)}}
 
-\* replay of the small ops from the base outline: [st, ops (full), preds (the cache after every access)]
-RECURSIVE Fold(_,_,_,_)
-Fold(acc, sops, k, schema) ==
-   IF k > Len(sops) THEN acc
-   ELSE LET op  == FullOp(acc.st.cur, sops[k])
-            st2 == Apply(acc.st, op, schema)
-        IN Fold([st |-> st2, ops |-> Append(acc.ops, op),
-                 preds |-> IF op.op = "access" THEN Append(acc.preds, StrScens(st2.cache)) ELSE acc.preds],
-                sops, k + 1, schema)
-
 \* ---------------------------------------------------------------- state space
-VARIABLES ph, b, cs, hops
-vars == <<ph, b, cs, hops>>
+\* hs = [ops (full op records), st (Outline.tla: cur, cache, mod), preds (the cache after every access)]
+VARIABLES ph, b, cs, hs
+vars == <<ph, b, cs, hs>>
 NoCase == [t |-> 0, ords |-> <<>>, rows |-> <<>>]
+NoOutline == [name |-> <<>>, tags |-> <<>>, steps |-> <<>>, blocks |-> <<>>]
+NoHist == [ops |-> <<>>, st |-> InitSt(NoOutline), preds |-> <<>>]
 Cases == AllCases
 S == SchemaOf(cs)
-hs == Fold([st |-> InitSt(Mk(cs)), ops |-> <<>>, preds |-> <<>>], hops, 1, S)
 O == hs.st.cur                      \* in a case state: the outline; in a hist state: the outline after the modifications
-Init == ph = "start" /\ b = 0 /\ cs = NoCase /\ hops = <<>>
-Next == \/ ph = "start"  /\ ph' = "bucket" /\ b' \in 0..(NB - 1) /\ cs' = cs /\ hops' = hops
-        \/ ph = "bucket" /\ ph' = "case" /\ b' = b /\ cs' \in {x \in Cases : Bucket(x) = b} /\ hops' = hops
-        \/ /\ ph \in {"case", "hist"} /\ IsHistBase(cs) /\ Len(hops) < HistLen
-           /\ \E p \in OpsFor(O) : hops' = Append(hops, p)
+hops == hs.ops
+Init == ph = "start" /\ b = 0 /\ cs = NoCase /\ hs = NoHist
+Next == \/ ph = "start"  /\ ph' = "bucket" /\ b' \in 0..(NB - 1) /\ cs' = cs /\ hs' = hs
+        \/ ph = "bucket" /\ ph' = "case" /\ b' = b /\ cs' \in {x \in Cases : Bucket(x) = b}
+                         /\ hs' = [ops |-> <<>>, st |-> InitSt(Mk(cs')), preds |-> <<>>]
+        \/ /\ ph \in {"case", "hist"} /\ IsHistBase(cs) /\ Len(hs.ops) < HistLen
+           /\ \E p \in OpsFor(hs.st.cur) :
+                 LET op  == FullOp(hs.st.cur, p)
+                     st2 == Apply(hs.st, op, S)
+                 IN hs' = [ops |-> Append(hs.ops, op), st |-> st2,
+                           preds |-> IF op.op = "access" THEN Append(hs.preds, StrScens(st2.cache)) ELSE hs.preds]
            /\ ph' = "hist" /\ b' = b /\ cs' = cs
 Spec == Init /\ [][Next]_vars
 
@@ -201,14 +203,13 @@ Isolation == OnCase(LET o == O  sc == S  C == ExpandCode(o, sc)  P == Pairs(o)
 \* the cache: whenever no table is marked modified the cached scenarios are the expansion of the current tables,
 \* and they always are right after an access
 CacheCoherent == ph \in {"case", "hist"} =>
-                    LET H == hs IN
-                    /\ (~AnyMod(H.st) /\ hops # <<>>) => H.st.cache = ExpandCode(H.st.cur, S)
-                    /\ (hops # <<>> /\ hops[Len(hops)].op = "access") => H.st.cache = ExpandCode(H.st.cur, S)
+                    /\ (~AnyMod(hs.st) /\ hops # <<>>) => hs.st.cache = ExpandCode(O, S)
+                    /\ (hops # <<>> /\ hops[Len(hops)].op = "access") => hs.st.cache = ExpandCode(O, S)
 \* a modification through the table API always marks the table
 ModMarks == ph = "hist" => (hops[Len(hops)].op # "access" => hs.st.mod[hops[Len(hops)].b])
 \* right after an access the expansion has one scenario per row of the current (possibly modified) tables
 Rebuilt == (ph = "hist" /\ hops[Len(hops)].op = "access") =>
-              LET H == hs IN Len(H.st.cache) = TotalRows(H.st.cur)
+              Len(hs.st.cache) = TotalRows(O)
 
 \* ---------------------------------------------------------------- emission
 EmitCase == OnCase(LET o == O IN
@@ -216,7 +217,6 @@ EmitCase == OnCase(LET o == O IN
                                             ops |-> <<AccessOp>>,
                                             preds |-> <<StrScens(ExpandCode(o, S))>>])>>))
 EmitHist == (ph = "hist" /\ Len(hops) = HistLen /\ hops[HistLen].op = "access") =>
-               LET H == hs IN
                PrintT(<<"CASE", ToJson([kind |-> "hist", t |-> cs.t, sno |-> SchemaNo(cs), o |-> Mk(cs), schema |-> S,
-                                        ops |-> H.ops, preds |-> H.preds])>>)
+                                        ops |-> hs.ops, preds |-> hs.preds])>>)
 =============================================================================
